@@ -1,11 +1,22 @@
 #!/bin/sh
-# usage: confirm_seed.sh <scratch-worktree-with-seed-dir>
-# Re-applies seed/patch.diff (if not applied), runs the repository's own test suite with it and prints the totals.
+# usage: confirm_seed.sh <scratch-worktree-with-seed-dir> <crate> <demo-file-name-without-.rs> [full]
+# Confirms a seeded change: demo fails with it / passes without it; with "full", the repository's own suite passes with it.
 set -u
-W="$1"; cd "$W" || exit 2
+W="$1"; C="$2"; D="$3"; FULL="${4:-}"
+cd "$W" || exit 2
 export CARGO_NET_OFFLINE=true
+OUT=seed/confirm.txt; : > $OUT
 git apply --check seed/patch.diff 2>/dev/null && git apply seed/patch.diff
-cargo test --workspace --no-fail-fast --offline > seed/existing_tests.log 2>&1
-P=$(grep "^test result" seed/existing_tests.log | sed 's/.* \([0-9]*\) passed.*/\1/' | paste -sd+ | bc)
-F=$(grep "^test result" seed/existing_tests.log | sed 's/.*; \([0-9]*\) failed.*/\1/' | paste -sd+ | bc)
-echo "existing tests with the change: passed=$P failed=$F (build errors: $(grep -c '^error' seed/existing_tests.log))"
+mkdir -p $C/tests; cp seed/demo/$D.rs $C/tests/
+echo "demo WITH change: $(cargo test -p $C --test $D --offline 2>&1 | grep '^test result' | tr '\n' ' ')" >> $OUT
+git apply -R seed/patch.diff
+echo "demo WITHOUT change: $(cargo test -p $C --test $D --offline 2>&1 | grep '^test result' | tr '\n' ' ')" >> $OUT
+rm -f $C/tests/$D.rs; rmdir $C/tests 2>/dev/null
+git apply seed/patch.diff
+if [ -n "$FULL" ]; then
+  cargo test --workspace --no-fail-fast --offline > seed/existing_tests.log 2>&1
+  P=$(grep "^test result" seed/existing_tests.log | awk '{p+=$4} END {print p}')
+  F=$(grep "^test result" seed/existing_tests.log | awk '{f+=$6} END {print f}')
+  echo "existing suite WITH change: passed=$P failed=$F; failing: $(grep -E '^test .* FAILED|^    [a-z_:]+$' seed/existing_tests.log | head -5 | tr '\n' ' ')" >> $OUT
+fi
+cat $OUT
